@@ -202,6 +202,9 @@ class RSAKey(object):
         :param sLen: length of salt"""
         EM = self.EMSA_PSS_encode(mHash, numBits(self.n) - 1, hAlg, sLen)
         try:
+            # EM is one byte shorter than the modulus when its bit length is
+            # 1 mod 8 (RFC 8017, section 8.1.1: OS2IP followed by I2OSP)
+            EM = bytearray(numBytes(self.n) - len(EM)) + EM
             ret = self._raw_private_key_op_bytes(EM)
         except ValueError:
             raise MessageTooLongError("Encode output too long")
@@ -281,6 +284,13 @@ class RSAKey(object):
             EM = self._raw_public_key_op_bytes(S)
         except ValueError:
             raise InvalidSignature("Invalid signature")
+        # the encoded message is emLen = ceil((modBits - 1) / 8) bytes long,
+        # one less than the modulus when modBits is 1 mod 8 (RFC 8017,
+        # section 8.1.2, step 2c)
+        extra = len(EM) - divceil(numBits(self.n) - 1, 8)
+        if any(EM[:extra]):
+            raise InvalidSignature("Invalid signature")
+        EM = EM[extra:]
         result = self.EMSA_PSS_verify(mHash, EM, numBits(self.n) - 1,
                                       hAlg, sLen)
         if result:
